@@ -56,7 +56,9 @@ CHECKS = {
              'arguments) events.',
         note='Trusted: harness/gates.py matrices (they are the gate set under test and are cross-checked by the vector clause), '
              'float->exact conversion with tolerance 1e-9, projection/renderer. Arbitrary real angles are covered only as '
-             'arguments passed correctly (integer multiples of pi/2 here).',
+             'arguments passed correctly (integer multiples of pi/2 here; one gate with a real parameter of 1e-6 must be reported as applied). '
+             'Hook H3b reports the state after EVERY gate application: the events of a subcircuit are folded through the action '
+             'ApplyGate of the specification and each must leave exactly the state the action leaves (step_vectors).',
         design='5/C03', technique='TLA+ exact emulator spec + TLC-enumerated programs replayed into the emulator + TLC trace validation of hook events and state vectors'),
     'C08': dict(
         text='ExecEnum enumerates nestings of loops (0, 1, 2, let-valued), sequential / parallel blocks, subcircuit blocks, '
